@@ -41,7 +41,8 @@ CHECKS = {
         text='Finite decision tables are read back out of the compiler\'s MIR by exhaustive path enumeration and '
              'compared with Yacc\'s rules: shift/reduce resolution (every precedence/associativity valuation), '
              'reduce/reduce + accept/reduce handling, where a production\'s precedence comes from, keyword->kind, '
-             'and the %expect rule (decided over a finite abstract model of expect/expectrr/conflict counts).',
+             'and the %expect rule (decided over a finite abstract model of expect/expectrr/conflict counts); the two conflict '
+             'lists only grow and are re-ordered (nothing takes records out again before they are reported and counted).',
         note='Decides the per-cell resolution tables and the %expect comparison for every input because they are '
              'loop-free decision procedures. Does NOT decide that the automaton offers the right candidate actions '
              '(C01) nor exactness of the conflict *set* beyond per-cell bookkeeping. Trusted: ' + TB,
@@ -73,7 +74,8 @@ CHECKS = {
              'ranking comparator as a table; no construction of an EOF insertion; neighbour-generation table incl. never '
              'insert after delete; positive token costs asserted before parsing; the node-merging relation (eq table over the '
              'fields themselves, Hash subset); the two phases of the search and the sweep\'s cost filter; every candidate is '
-             'test-parsed to the same end point; a forward move that consumed a lexeme is never discarded.',
+             'test-parsed to the same end point; a forward move that consumed a lexeme is never discarded, and is recorded as a '
+             'Shift repair exactly when it consumed one; a deletion is charged the cost of the token at the node\'s own position.',
         note='Minimality and completeness of the returned set need the exhaustive reference search and are NOT decided. Trusted: ' + TB,
         technique='path-table extraction of comparator/neighbour/eq tables and dominance ordering of pipeline stages in MIR',
         ref='§4 C06'),
@@ -82,8 +84,9 @@ CHECKS = {
         text='Driver table with recovery on (one recover call, one error carrying its repairs, None iff repairs are empty, else '
              'continue at the returned index); the search\'s cost-bucket list is long enough for any neighbour cost when indexed; budget only shrinks and bounds the deadline; every cycle of every loop in the '
              'recovery cone is deadline-tested, iterator driven, counter bounded or consuming; every give-up exit of recover '
-             'returns (unchanged index, no repairs).',
-        note='Strictly increasing error positions three lexemes apart depend on what the search finds and are NOT decided. Trusted: ' + TB,
+             'returns (unchanged index, no repairs); a Shift repair is recorded only for a move that consumed a lexeme (so the '
+             '"three trailing shifts" of the success test are three real lexemes).',
+        note='Strictly increasing error positions three lexemes apart depend on what the search finds and are NOT decided beyond that. Trusted: ' + TB,
         technique='symbolic path tables of the driver, per-cycle classification of recovery loops (deadline / iterator / counter / consuming) in MIR',
         ref='§4 C07'),
     'C08': dict(
@@ -222,9 +225,10 @@ CHECKS = {
              '(Err return, `?`, explicit panic) after the output path is claimed without removal of the output - directly or '
              'through a drop guard that owns the path and is disarmed only immediately before Ok exits; lexer rewrite rule; type '
              'parameters whose names the generated code spells out are part of the cache key; enum settings are rendered '
-             'injectively (different variants differ, payloads are rendered).',
+             'injectively (different variants differ, payloads are rendered); the token-map builder removes its output on every '
+             'failing exit as well; no failing exit of the lexer build precedes the nested parser build (1 known finding).',
         note='Necessary conditions for "ends in the state a clean build would". Equality with a clean build across arbitrary '
-             'file-system histories / clock granularity is NOT decided. 3 known findings (settings that bypass the cache: the '
+             'file-system histories / clock granularity is NOT decided. 4 known findings (a lexer failure before the nested parser build leaves the parser file; settings that bypass the cache: the '
              'inspect_rt callback that validates test_files, and the unstable in-memory grammar sources). Trusted: std::fs semantics; ' + TB,
         technique='field-read coverage over the call-graph cone, path-table extraction of the skip decision, dominance/reachability of failing exits vs. deletion points and drop-guard typestate in MIR',
         ref='§4 C18'),
@@ -256,7 +260,8 @@ CHECKS = {
              'its last growth and on every way from the cast to a return. State-count guards of the pager, StateGraph::new '
              'and StateTable::new and the checked lexer rule-id conversion are checked for existence and placement. The iteration '
              'order of hash containers keyed by StorageT values (fixed hasher, but width-dependent hashes) must not reach an ordered result. '
-             'Every width refusal carries the documented "not big enough" message.',
+             'Every width refusal carries the documented "not big enough" message. No product is computed in the storage type '
+             '(row offsets are formed after widening to usize).',
         note='Necessary condition for "no width yields wrapped sizes/indices"; equality of results across accepted widths is '
              'not decided beyond these two conditions. 2 operand origins are trusted with a stated reason (table in rules/c20.py); 2 known '
              'findings (state numbering and the reduce/reduce conflict list differ between widths). Trusted: ' + TB,
